@@ -460,6 +460,38 @@ def corpus():
                  kind='rules', rules=['Netflix', 'Costco', 'Fuel'], views=[list(B.VIEW_POOL[0])])
         lb['layout'] = lay
         out.append((lb, [('layout', None), ('file', 0)], ('Card', 'missing') if lay == 'symlink' else None))
+    # ---- rule_mode spelled in ways that are NOT one of the two legal values: the documented fallback is first_match
+    conflict = [R('2025-01-03', 'NETFLIX PREMIUM 8841', 62), R('2025-01-09', 'COSTCO WHSE', 1000), R('2025-01-20', 'MYSTERY SHOP', 90),
+                R('2025-02-01', 'NETFLIX.COM', 62)]
+    fm = {'NETFLIX PREMIUM 8841': ['Netflix', 'Subscriptions', 'Streaming'], 'COSTCO WHSE': ['Costco', 'Groceries', 'Warehouse'],
+          'MYSTERY SHOP': ['Mystery Low', 'Fun', 'Mystery']}
+    ms = {'NETFLIX PREMIUM 8841': ['Netflix Premium', 'Subscriptions', 'Premium'], 'COSTCO WHSE': ['Costco', 'Shopping', 'Bulk'],
+          'MYSTERY SHOP': ['Prio', 'Shopping', 'Mystery']}
+    for raw, means in (('First_Match', 'first_match'), ('MOST_SPECIFIC', 'first_match'), ('Most_Specific', 'first_match'),
+                       ('" most_specific "', 'first_match'), ('mostspecific', 'first_match'), ('""', 'first_match'), ('', 'first_match'),
+                       ('1', 'first_match'), ('true', 'first_match'), ('"most_specific"', 'most_specific'), ("'first_match'", 'first_match'),
+                       ('most_specific   # chosen in 2024', 'most_specific')):
+        mb = bud([S('Card', 'data/card.csv', copy.deepcopy(conflict))], kind='rules',
+                 rules=['Netflix', 'Netflix Premium', 'Costco', 'Costco Big', 'Mystery Low', 'Prio'], mode=means,
+                 expect=fm if means == 'first_match' else ms)
+        mb['rule_mode_raw'] = raw
+        out.append((mb, [], None))
+    # ---- a merchants_file that is configured but not there: no rules (and a warning), even if a legacy
+    #      merchant_categories.csv lies in config/; and a present merchants_file wins over such a stray CSV
+    unk = {d: [None, 'Unknown', 'Unknown'] for d in ('NETFLIX.COM', 'COSTCO WHSE', 'UBER TRIP')}
+    for missing in (True, False):
+        gb = bud([S('Card', 'data/card.csv', copy.deepcopy(jan))], kind='rules', rules=['Costco', 'Uber'],
+                 expect=unk if missing else {'NETFLIX.COM': [None, 'Unknown', 'Unknown'], 'COSTCO WHSE': ['Costco', 'Groceries', 'Warehouse']})
+        gb['rules']['configured_missing'] = missing
+        gb['rules']['stray_csv'] = [list(x) for x in B.CSV_POOL[:2]] + [['COSTCO', 'Costco Csv', 'Shopping', 'Stray', '']]
+        out.append((gb, [('rule_mode', None)], None))
+    nb = bud([S('Card', 'data/card.csv', copy.deepcopy(jan))], kind='rules', rules=['Costco'], expect=unk)
+    nb['rules']['configured_missing'] = True            # ... and without any stray file
+    out.append((nb, [], None))
+    # a views_file that is configured but not there: no views, even if config/views.rules exists
+    vb = bud([S('Card', 'data/card.csv', copy.deepcopy(jan))], kind='rules', rules=['Netflix', 'Costco'], views=[list(B.VIEW_POOL[0]), list(B.VIEW_POOL[1])])
+    vb['views_file'] = 'config/my-views.rules'
+    out.append((vb, [], None))
     cb = bud([S('Chase', 'data/chase.csv', copy.deepcopy(jan))], kind='csv', csv=B.CSV_POOL[:4])
     cb['layout'] = 'symlink-decoy'
     out.append((cb, [('layout', None)], None))
@@ -632,7 +664,7 @@ def main(tier):
                 def still(c, chk=chk, law=law, strong=f.get('strong', False)):
                     return any(x['law'] == law and x.get('strong', False) == strong for x in recheck(chk, c))
                 if chk['type'] in ('compose', 'missing'):
-                    small = B.shrink_budget(spec, still, max_steps=25 if tier == 'quick' else 80)
+                    small = B.shrink_budget(spec, still, max_steps=12 if tier == 'quick' else 80)
         again = recheck(chk, small) if law != 'harness-error' else [f]
         det = [x for x in again if x['law'] == law] or [f]
         run.violation(law.replace('/', '-'), {'kind': 'counterexample', 'budget': small, 'check': chk, 'law': law,
